@@ -8,6 +8,7 @@ import Mathlib.Algebra.Order.Field.Basic
 import Mathlib.Tactic.Ring
 import Mathlib.Tactic.FieldSimp
 import Mathlib.Tactic.Linarith
+import Mathlib.Tactic.LinearCombination
 import Mathlib.Tactic.SplitIfs
 import TfelVerif.C11.Model
 
@@ -379,5 +380,628 @@ theorem pieceDer_taylor (x y d : Vec K) (i : Nat) (t e : K) :
       e * e * (3 * (coef x y d i).2) := by
   unfold pieceDer pieceD2
   ring
+
+/-! ### Thomas algorithm -/
+
+/-- `s` solves the symmetric tridiagonal system with diagonal `b`, off-diagonals `c` and
+right-hand side `r` (`n ≥ 2` unknowns) -/
+def TriSystem (c b r : Vec K) (n : Nat) (s : Vec K) : Prop :=
+  b.get 0 * s.get 0 + c.get 0 * s.get 1 = r.get 0 ∧
+  (∀ i, 1 ≤ i → i + 1 < n →
+    c.get (i - 1) * s.get (i - 1) + b.get i * s.get i + c.get i * s.get (i + 1) = r.get i) ∧
+  c.get (n - 2) * s.get (n - 2) + b.get (n - 1) * s.get (n - 1) = r.get (n - 1)
+
+theorem fwd_succ (c b r : Vec K) (i : Nat) :
+    fwd c b r (i + 1) =
+      (b.get (i + 1) - c.get i / (fwd c b r i).1 * c.get i,
+       r.get (i + 1) - c.get i / (fwd c b r i).1 * (fwd c b r i).2) := rfl
+
+theorem back_last (c : Vec K) (bd : Vec (K × K)) (n : Nat) :
+    back c bd n (n - 1 - (n - 1)) = (bd.get (n - 1)).2 / (bd.get (n - 1)).1 := by
+  rw [Nat.sub_self]; rfl
+
+theorem back_step (c : Vec K) (bd : Vec (K × K)) {n i : Nat} (hi : i + 1 < n) :
+    back c bd n (n - 1 - i) =
+      ((bd.get i).2 - c.get i * back c bd n (n - 1 - (i + 1))) / (bd.get i).1 := by
+  have h1 : n - 1 - i = (n - 2 - i) + 1 := by omega
+  have h2 : n - 2 - (n - 2 - i) = i := by omega
+  have h3 : n - 1 - (i + 1) = n - 2 - i := by omega
+  rw [h1, h3]
+  simp only [back]
+  rw [h2]
+
+theorem pivotsOk_spec (prec : K) (bd : Vec (K × K)) :
+    ∀ k, pivotsOk prec bd k = true → ∀ j, j < k → ¬ absT (bd.get j).1 < prec := by
+  intro k
+  induction k with
+  | zero => intro _ j hj; omega
+  | succ k ih =>
+    intro h j hj
+    simp only [pivotsOk, Bool.and_eq_true, Bool.not_eq_true', decide_eq_false_iff_not] at h
+    rcases Nat.lt_succ_iff_lt_or_eq.mp hj with h1 | h1
+    · exact ih h.1 j h1
+    · subst h1; exact h.2
+
+theorem ne_zero_of_not_absT_lt {p prec : K} (hp : 0 < prec) (h : ¬ absT p < prec) : p ≠ 0 := by
+  intro h0
+  apply h
+  subst h0
+  simp only [absT, lt_irrefl, if_false]
+  exact hp
+
+/-- algebraic core of the Thomas invariant : one eliminated row put back -/
+theorem thomas_row {c0 c1 b1 r1 p0 p1 q0 q1 s0 s1 s2 : K} (hp0 : p0 ≠ 0)
+    (hp : p1 = b1 - c0 / p0 * c0) (hq : q1 = r1 - c0 / p0 * q0)
+    (hU0 : p0 * s0 + c0 * s1 = q0) (hU1 : p1 * s1 + c1 * s2 = q1) :
+    c0 * s0 + b1 * s1 + c1 * s2 = r1 := by
+  have hm : c0 / p0 * p0 = c0 := div_mul_cancel₀ _ hp0
+  linear_combination hU1 + (c0 / p0) * hU0 - s1 * hp + hq - s0 * hm
+
+/-- the two sweeps solve the system as soon as no pivot vanishes -/
+theorem sweeps_solve (c b r : Vec K) {n : Nat} (hn : 2 ≤ n)
+    (hp : ∀ i, i < n → (fwd c b r i).1 ≠ 0) :
+    TriSystem c b r n (Vec.mk (fun i => back c (Vec.mk (fwd c b r) ()) n (n - 1 - i)) ()) := by
+  -- the relations of the upper bidiagonal system left by the forward sweep
+  have hU : ∀ i, i + 1 < n →
+      (fwd c b r i).1 * back c (Vec.mk (fwd c b r) ()) n (n - 1 - i) +
+        c.get i * back c (Vec.mk (fwd c b r) ()) n (n - 1 - (i + 1)) = (fwd c b r i).2 := by
+    intro i hi
+    rw [back_step c _ hi]
+    have := hp i (by omega)
+    simp only
+    field_simp
+    ring
+  have hL : (fwd c b r (n - 1)).1 * back c (Vec.mk (fwd c b r) ()) n (n - 1 - (n - 1)) =
+      (fwd c b r (n - 1)).2 := by
+    rw [back_last]
+    have := hp (n - 1) (by omega)
+    simp only
+    field_simp
+  refine ⟨?_, ?_, ?_⟩
+  · have := hU 0 (by omega)
+    simpa [fwd] using this
+  · intro i h1 h2
+    obtain ⟨j, rfl⟩ : ∃ j, i = j + 1 := ⟨i - 1, by omega⟩
+    simp only [Nat.add_sub_cancel]
+    have e := fwd_succ c b r j
+    exact thomas_row (hp j (by omega)) (congrArg Prod.fst e) (congrArg Prod.snd e)
+      (hU j (by omega)) (hU (j + 1) h2)
+  · obtain ⟨j, rfl⟩ : ∃ j, n = j + 2 := ⟨n - 2, by omega⟩
+    simp only [Nat.add_sub_cancel, show j + 2 - 1 = j + 1 by omega]
+    have e := fwd_succ c b r j
+    have h0 := hU j (by omega)
+    have h1 := hL
+    simp only [show j + 2 - 1 = j + 1 by omega] at h1
+    have := thomas_row (c1 := 0) (s2 := 0) (hp j (by omega)) (congrArg Prod.fst e) (congrArg Prod.snd e)
+      h0 (by rw [zero_mul, add_zero]; exact h1)
+    simpa using this
+
+/-- `solveTridiagonalLinearSystem` : when it does not raise, the result solves the system -/
+theorem thomas_solves {prec : K} (hprec : 0 < prec) (c b r : Vec K) {n : Nat} (hn : 2 ≤ n)
+    {s : Vec K} (h : thomas prec c b r n = some s) : TriSystem c b r n s := by
+  unfold thomas at h
+  simp only [Vec.tab_eq] at h
+  split_ifs at h with hp
+  have hs : s = Vec.mk (fun i => back c (Vec.mk (fwd c b r) ()) n (n - 1 - i)) () :=
+    (Option.some.inj h).symm
+  rw [hs]
+  apply sweeps_solve c b r hn
+  intro i hi
+  exact ne_zero_of_not_absT_lt hprec (pivotsOk_spec prec _ n hp i hi)
+
+/-! ### natural cubic spline equations -/
+
+/-- the natural-spline conditions on the slopes `d` : zero second derivative at both ends and
+continuous second derivative at every interior node (`n ≥ 2` points) -/
+def NaturalC2 (x y d : Vec K) (n : Nat) : Prop :=
+  pieceD2 x y d 0 0 = 0 ∧
+  (∀ i, 1 ≤ i → i + 1 < n →
+    pieceD2 x y d (i - 1) (x.get i - x.get (i - 1)) = pieceD2 x y d i 0) ∧
+  pieceD2 x y d (n - 2) (x.get (n - 1) - x.get (n - 2)) = 0
+
+theorem hInv_mul {x : Vec K} {n : Nat} (hx : StrictInc x n) {i : Nat} (hi : i + 1 < n) :
+    (x.get (i + 1) - x.get i) * hInv x i = 1 := by
+  have : x.get (i + 1) - x.get i ≠ 0 := sub_ne_zero.mpr (ne_of_gt (hx i hi))
+  unfold hInv
+  field_simp
+
+theorem pieceD2_left_eq (x y d : Vec K) (i : Nat) :
+    pieceD2 x y d i 0 =
+      2 * ((3 * ((y.get (i + 1) - y.get i) * hInv x i) - d.get (i + 1) - 2 * d.get i) * hInv x i) := by
+  unfold pieceD2
+  rw [coef_eq]
+  unfold hInv
+  ring
+
+theorem pieceD2_right_eq (x y d : Vec K) (i : Nat) (h : (x.get (i + 1) - x.get i) * hInv x i = 1) :
+    pieceD2 x y d i (x.get (i + 1) - x.get i) =
+      2 * ((-3 * ((y.get (i + 1) - y.get i) * hInv x i) + 2 * d.get (i + 1) + d.get i) * hInv x i) := by
+  unfold pieceD2
+  rw [coef_eq]
+  have e : 1 / (x.get (i + 1) - x.get i) = hInv x i := rfl
+  rw [e]
+  generalize hInv x i = u at *
+  generalize x.get (i + 1) - x.get i = L at *
+  linear_combination (6 * ((-2 * ((y.get (i + 1) - y.get i) * u) + d.get (i + 1) + d.get i) * u)) * h
+
+/-- the rows of the system assembled by `buildInterpolation` are exactly the natural-spline
+conditions -/
+theorem natural_iff_system {x y : Vec K} {n : Nat} (hx : StrictInc x n) (hn : 2 ≤ n) (d : Vec K) :
+    TriSystem (upperDiag x) (mainDiag x (n - 1)) (rhsVec x y (n - 1)) n d ↔ NaturalC2 x y d n := by
+  unfold TriSystem NaturalC2
+  have hne : ∀ i, i + 1 < n → hInv x i ≠ 0 := by
+    intro i hi h0
+    have := hInv_mul hx hi
+    rw [h0, mul_zero] at this
+    exact zero_ne_one this
+  have r0 : (mainDiag x (n - 1)).get 0 * d.get 0 + (upperDiag x).get 0 * d.get 1 = (rhsVec x y (n - 1)).get 0 ↔
+      pieceD2 x y d 0 0 = 0 := by
+    rw [pieceD2_left_eq]
+    have h1 : (0 : Nat) ≠ n - 1 := by omega
+    simp only [mainDiag, rhsVec, upperDiag, uTerm, if_neg h1, if_true]
+    have := hne 0 (by omega)
+    constructor
+    · intro h
+      linear_combination (-2 : K) * h
+    · intro h
+      linear_combination (-1 / 2 : K) * h
+  have ri : ∀ i, 1 ≤ i → i + 1 < n →
+      ((upperDiag x).get (i - 1) * d.get (i - 1) + (mainDiag x (n - 1)).get i * d.get i +
+          (upperDiag x).get i * d.get (i + 1) = (rhsVec x y (n - 1)).get i ↔
+       pieceD2 x y d (i - 1) (x.get i - x.get (i - 1)) = pieceD2 x y d i 0) := by
+    intro i h1 h2
+    obtain ⟨j, rfl⟩ : ∃ j, i = j + 1 := ⟨i - 1, by omega⟩
+    simp only [Nat.add_sub_cancel]
+    rw [pieceD2_left_eq, pieceD2_right_eq x y d j (hInv_mul hx (by omega))]
+    have h3 : j + 1 ≠ n - 1 := by omega
+    have h4 : j + 1 ≠ 0 := by omega
+    simp only [mainDiag, rhsVec, upperDiag, uTerm, if_neg h3, if_neg h4, Nat.add_sub_cancel]
+    constructor
+    · intro h
+      linear_combination (2 : K) * h
+    · intro h
+      linear_combination (1 / 2 : K) * h
+  have rl : (upperDiag x).get (n - 2) * d.get (n - 2) + (mainDiag x (n - 1)).get (n - 1) * d.get (n - 1) =
+        (rhsVec x y (n - 1)).get (n - 1) ↔
+      pieceD2 x y d (n - 2) (x.get (n - 1) - x.get (n - 2)) = 0 := by
+    obtain ⟨j, rfl⟩ : ∃ j, n = j + 2 := ⟨n - 2, by omega⟩
+    simp only [Nat.add_sub_cancel, show j + 2 - 1 = j + 1 by omega]
+    rw [pieceD2_right_eq x y d j (hInv_mul hx (by omega))]
+    simp only [mainDiag, rhsVec, upperDiag, uTerm, if_true, Nat.add_sub_cancel]
+    constructor
+    · intro h
+      linear_combination (2 : K) * h
+    · intro h
+      linear_combination (1 / 2 : K) * h
+  constructor
+  · rintro ⟨a, b, c⟩
+    exact ⟨r0.mp a, fun i h1 h2 => (ri i h1 h2).mp (b i h1 h2), rl.mp c⟩
+  · rintro ⟨a, b, c⟩
+    exact ⟨r0.mpr a, fun i h1 h2 => (ri i h1 h2).mpr (b i h1 h2), rl.mpr c⟩
+
+theorem ordered_iff (x : Vec K) : ∀ k, ordered x k = true ↔ StrictInc x (k + 1) := by
+  intro k
+  induction k with
+  | zero => simp [ordered, StrictInc]
+  | succ k ih =>
+    simp only [ordered, Bool.and_eq_true, decide_eq_true_eq, ih]
+    constructor
+    · rintro ⟨h1, h2⟩ i hi
+      rcases Nat.lt_succ_iff_lt_or_eq.mp (by omega : i < k + 1) with h | h
+      · exact h1 i (by omega)
+      · subst h; exact h2
+    · intro h
+      exact ⟨fun i hi => h i (by omega), h k (by omega)⟩
+
+/-! ### the pivots of the natural-spline system are positive -/
+
+theorem hInv_pos {x : Vec K} {n : Nat} (hx : StrictInc x n) {i : Nat} (hi : i + 1 < n) :
+    0 < hInv x i := by
+  unfold hInv
+  exact one_div_pos.mpr (sub_pos.mpr (hx i hi))
+
+theorem elim_le {h p : K} (hh : 0 < h) (hp : 2 * h ≤ p) : h / p * h ≤ h / 2 := by
+  have hp0 : 0 < p := lt_of_lt_of_le (by linarith) hp
+  have h1 : h / p ≤ 1 / 2 := by
+    rw [div_le_iff₀ hp0]
+    linarith
+  calc h / p * h ≤ 1 / 2 * h := mul_le_mul_of_nonneg_right h1 (le_of_lt hh)
+    _ = h / 2 := by ring
+
+theorem pivot_lower {x y : Vec K} {n : Nat} (hx : StrictInc x n) :
+    ∀ i, i + 1 < n →
+      2 * hInv x i ≤ (fwd (upperDiag x) (mainDiag x (n - 1)) (rhsVec x y (n - 1)) i).1 := by
+  intro i
+  induction i with
+  | zero =>
+    intro hi
+    have h1 : (0 : Nat) ≠ n - 1 := by omega
+    simp only [fwd, mainDiag, if_neg h1, if_true]
+    linarith
+  | succ i ih =>
+    intro hi
+    have h := ih (by omega)
+    rw [fwd_succ]
+    generalize (fwd (upperDiag x) (mainDiag x (n - 1)) (rhsVec x y (n - 1)) i).1 = p at *
+    have h3 : i + 1 ≠ n - 1 := by omega
+    have h4 : i + 1 ≠ 0 := by omega
+    simp only [mainDiag, upperDiag, if_neg h3, if_neg h4, Nat.add_sub_cancel]
+    have hh := hInv_pos hx (by omega : i + 1 < n)
+    have := elim_le hh h
+    linarith
+
+theorem pivot_last {x y : Vec K} {n : Nat} (hx : StrictInc x n) (hn : 2 ≤ n) :
+    3 / 2 * hInv x (n - 2) ≤
+      (fwd (upperDiag x) (mainDiag x (n - 1)) (rhsVec x y (n - 1)) (n - 1)).1 := by
+  obtain ⟨j, rfl⟩ : ∃ j, n = j + 2 := ⟨n - 2, by omega⟩
+  simp only [Nat.add_sub_cancel, show j + 2 - 1 = j + 1 by omega]
+  have h := pivot_lower (y := y) hx j (by omega)
+  simp only [show j + 2 - 1 = j + 1 by omega] at h
+  rw [fwd_succ]
+  generalize (fwd (upperDiag x) (mainDiag x (j + 1)) (rhsVec x y (j + 1)) j).1 = p at *
+  simp only [mainDiag, upperDiag, if_true, Nat.add_sub_cancel]
+  have hh := hInv_pos hx (by omega : j + 1 < j + 2)
+  have := elim_le hh h
+  linarith
+
+theorem pivotsOk_of (prec : K) (bd : Vec (K × K)) :
+    ∀ k, (∀ j, j < k → ¬ absT (bd.get j).1 < prec) → pivotsOk prec bd k = true := by
+  intro k
+  induction k with
+  | zero => intro _; rfl
+  | succ k ih =>
+    intro h
+    simp only [pivotsOk, Bool.and_eq_true, Bool.not_eq_true', decide_eq_false_iff_not]
+    exact ⟨ih (fun j hj => h j (by omega)), h k (by omega)⟩
+
+theorem absT_of_pos {p : K} (hp : 0 < p) : absT p = p := by
+  unfold absT
+  rw [if_neg (not_lt.mpr (le_of_lt hp))]
+
+/-! ### setCollocationPoints -/
+
+/-- when `setCollocationPoints` succeeds the table is strictly increasing and the slopes satisfy
+the natural-spline conditions -/
+theorem build_ok {prec : K} (hprec : 0 < prec) {x y : Vec K} {n : Nat} {d : Vec K}
+    (h : build prec x y n = Build.ok d) :
+    n ≠ 0 ∧ StrictInc x n ∧ (n = 1 → ∀ i, d.get i = 0) ∧ (2 ≤ n → NaturalC2 x y d n) := by
+  unfold build at h
+  split_ifs at h with h0 h1 h2
+  · have ho : StrictInc x n := by
+      have : ordered x (n - 1) = true := by simpa using h1
+      have := (ordered_iff x (n - 1)).mp this
+      rwa [Nat.sub_add_cancel (Nat.pos_of_ne_zero h0)] at this
+    refine ⟨h0, ho, ?_, ?_⟩
+    · intro _ i
+      injection h with h
+      rw [← h]
+    · intro hn; omega
+  · have ho : StrictInc x n := by
+      have : ordered x (n - 1) = true := by simpa using h1
+      have := (ordered_iff x (n - 1)).mp this
+      rwa [Nat.sub_add_cancel (Nat.pos_of_ne_zero h0)] at this
+    have hn : 2 ≤ n := by omega
+    refine ⟨h0, ho, fun h => absurd h h2, fun _ => ?_⟩
+    simp only [Vec.tab_eq] at h
+    split at h
+    · cases h
+    · rename_i s heq
+      injection h with h
+      subst h
+      exact (natural_iff_system ho hn s).mp (thomas_solves hprec _ _ _ hn heq)
+
+/-- on a strictly increasing table `setCollocationPoints` succeeds as soon as the threshold
+`prec` does not exceed the inverse interval lengths (all pivots are `≥ 3/2` of them) -/
+theorem build_total {prec : K} {x y : Vec K} {n : Nat} (hx : StrictInc x n) (hn : 1 ≤ n)
+    (hprec : ∀ i, i + 1 < n → prec ≤ hInv x i) : ∃ d, build prec x y n = Build.ok d := by
+  unfold build
+  have ho : ordered x (n - 1) = true := by
+    rw [ordered_iff, Nat.sub_add_cancel hn]; exact hx
+  rw [if_neg (by omega), ho]
+  simp only [Bool.not_true, Bool.false_eq_true, if_false, Vec.tab_eq]
+  by_cases h1 : n = 1
+  · rw [if_pos h1]; exact ⟨_, rfl⟩
+  · rw [if_neg h1]
+    have hn2 : 2 ≤ n := by omega
+    have hp : pivotsOk prec (Vec.mk (fwd (upperDiag x) (mainDiag x (n - 1)) (rhsVec x y (n - 1))) ()) n = true := by
+      apply pivotsOk_of
+      intro j hj
+      simp only
+      by_cases hj1 : j + 1 < n
+      · have h2 := pivot_lower (y := y) hx j hj1
+        have h3 := hInv_pos hx hj1
+        have h4 := hprec j hj1
+        rw [absT_of_pos (by linarith)]
+        exact not_lt.mpr (by linarith)
+      · have hj2 : j = n - 1 := by omega
+        subst hj2
+        have h2 := pivot_last (y := y) hx hn2
+        have h3 := hInv_pos hx (by omega : n - 2 + 1 < n)
+        have h4 := hprec (n - 2) (by omega)
+        rw [absT_of_pos (by linarith)]
+        exact not_lt.mpr (by linarith)
+    unfold thomas
+    simp only [Vec.tab_eq, hp, if_true]
+    exact ⟨_, rfl⟩
+
+/-! ### the primitive of the extrapolated spline -/
+
+/-- primitive (vanishing at offset 0) of the cubic piece `i`, at the offset `t` from `x i` -/
+def localPrim (x y d : Vec K) (i : Nat) (t : K) : K :=
+  (3 * (coef x y d i).2 * (t * t * t * t) + 4 * (coef x y d i).1 * (t * t * t) +
+      6 * d.get i * (t * t) + 12 * y.get i * t) / 12
+
+/-- primitive of the linear continuation `ye + df * u` at the offset `u` from the end node -/
+def extPrim (ye df u : K) : K := ye * u + half * df * (u * u)
+
+/-- integral of the spline from `x 0` to the node `x k` -/
+def nodeSum (x y d : Vec K) : Nat → K
+  | 0 => 0
+  | k + 1 => nodeSum x y d k + localPrim x y d k (x.get (k + 1) - x.get k)
+
+/-- primitive of the linearly extrapolated spline (vanishing at `x 0`; for one point the
+interpolant is the constant `y 0`) -/
+def prim (x y d : Vec K) (n : Nat) (t : K) : K :=
+  if n = 1 then y.get 0 * (t - x.get 0)
+  else
+    let k := lowerBound x n t
+    if k = 0 then extPrim (y.get 0) (d.get 0) (t - x.get 0)
+    else if k = n then
+      nodeSum x y d (n - 1) + extPrim (y.get (n - 1)) (d.get (n - 1)) (t - x.get (n - 1))
+    else nodeSum x y d (k - 1) + localPrim x y d (k - 1) (t - x.get (k - 1))
+
+theorem localIntegral_eq (x y d : Vec K) (xa xb : K) (i : Nat) :
+    localIntegral x y d xa xb i =
+      localPrim x y d i (xb - x.get i) - localPrim x y d i (xa - x.get i) := by
+  unfold localIntegral localPrim
+  ring
+
+theorem localPrim_zero (x y d : Vec K) (i : Nat) : localPrim x y d i 0 = 0 := by
+  simp [localPrim]
+
+theorem extPrim_zero (ye df : K) : extPrim ye df 0 = 0 := by
+  simp [extPrim]
+
+/-- `pieceVal` is the formal derivative of `localPrim` -/
+theorem localPrim_taylor (x y d : Vec K) (i : Nat) (t e : K) :
+    localPrim x y d i (t + e) = localPrim x y d i t + e * pieceVal x y d i t +
+      e * e * ((6 * d.get i + 12 * (coef x y d i).1 * t + 18 * (coef x y d i).2 * (t * t) +
+        (4 * (coef x y d i).1 + 12 * (coef x y d i).2 * t) * e + 3 * (coef x y d i).2 * (e * e)) / 12) := by
+  unfold localPrim pieceVal
+  ring
+
+/-- the linear continuation is the formal derivative of `extPrim` -/
+theorem extPrim_taylor (ye df u e : K) :
+    extPrim ye df (u + e) = extPrim ye df u + e * (ye + u * df) + e * e * (half * df) := by
+  unfold extPrim half
+  ring
+
+theorem nodeSum_loop (x y d : Vec K) (lo : Nat) (s : K) :
+    ∀ cnt, forRange lo cnt (fun k s => s + localIntegral x y d (x.get k) (x.get (k + 1)) k) s =
+      s + (nodeSum x y d (lo + cnt) - nodeSum x y d lo) := by
+  intro cnt
+  induction cnt with
+  | zero => simp [forRange]
+  | succ c ih =>
+    rw [forRange, ih, localIntegral_eq, sub_self, localPrim_zero]
+    show _ = s + (nodeSum x y d (lo + c + 1) - nodeSum x y d lo)
+    rw [nodeSum]
+    ring
+
+theorem lowerBound_mono {x : Vec K} {n : Nat} (hx : Mono x n) {a b : K} (hab : a ≤ b) :
+    lowerBound x n a ≤ lowerBound x n b := by
+  obtain ⟨a1, a2, a3⟩ := lowerBound_spec hx a
+  obtain ⟨b1, b2, b3⟩ := lowerBound_spec hx b
+  by_contra hc
+  have hlt : lowerBound x n b < lowerBound x n a := Nat.lt_of_not_le hc
+  have h1 := a2 _ hlt
+  have h2 := b3 _ (le_refl _) (by omega)
+  exact absurd (lt_of_lt_of_le h1 (le_trans hab h2)) (lt_irrefl _)
+
+theorem prim_of_lb (x y d : Vec K) {n : Nat} (hn : n ≠ 1) (t : K) {k : Nat}
+    (hk : lowerBound x n t = k) :
+    prim x y d n t =
+      if k = 0 then extPrim (y.get 0) (d.get 0) (t - x.get 0)
+      else if k = n then
+        nodeSum x y d (n - 1) + extPrim (y.get (n - 1)) (d.get (n - 1)) (t - x.get (n - 1))
+      else nodeSum x y d (k - 1) + localPrim x y d (k - 1) (t - x.get (k - 1)) := by
+  unfold prim
+  rw [if_neg hn]
+  simp only [hk]
+
+/-- `computeIntegral` on ordered bounds is the difference of the primitive -/
+theorem integralOrdered_eq {x : Vec K} {n : Nat} (hx : Mono x n) (hn : n ≠ 1) (y d : Vec K)
+    {xa xb : K} (hab : xa ≤ xb) :
+    integralOrdered x y d n xa xb = prim x y d n xb - prim x y d n xa := by
+  have hle := lowerBound_mono hx hab
+  have hbn := (lowerBound_spec hx xb).1
+  rw [prim_of_lb x y d hn xa rfl, prim_of_lb x y d hn xb rfl]
+  unfold integralOrdered
+  simp only
+  generalize lowerBound x n xa = ia at *
+  generalize lowerBound x n xb = ib at *
+  by_cases hEq : ia = ib
+  · subst hEq
+    rw [if_pos rfl]
+    by_cases h0 : ia = 0
+    · subst h0
+      simp only [if_true, extPrim]
+      ring
+    · simp only [if_neg h0]
+      by_cases h1 : ia = n
+      · simp only [if_pos h1, extPrim]
+        ring
+      · simp only [if_neg h1]
+        rw [localIntegral_eq]
+        ring
+  · rw [if_neg hEq]
+    have hlt : ia < ib := lt_of_le_of_ne hle hEq
+    have hb0 : ib ≠ 0 := by omega
+    have han : ia ≠ n := by omega
+    rw [nodeSum_loop, if_neg hb0, if_neg han]
+    have e1 : ia + (ib - 1 - ia) = ib - 1 := by omega
+    rw [e1]
+    have s1 : (if ia = 0 then (0 : K) + (y.get 0 * (x.get 0 - xa) - half * d.get 0 * ((xa - x.get 0) * (xa - x.get 0)))
+        else 0 + localIntegral x y d xa (x.get ia) (ia - 1)) =
+        nodeSum x y d ia -
+          (if ia = 0 then extPrim (y.get 0) (d.get 0) (xa - x.get 0)
+           else nodeSum x y d (ia - 1) + localPrim x y d (ia - 1) (xa - x.get (ia - 1))) := by
+      by_cases h0 : ia = 0
+      · subst h0
+        simp only [if_true, extPrim, nodeSum]
+        ring
+      · rw [if_neg h0, if_neg h0, localIntegral_eq]
+        obtain ⟨j, rfl⟩ : ∃ j, ia = j + 1 := ⟨ia - 1, by omega⟩
+        simp only [Nat.add_sub_cancel, nodeSum]
+        ring
+    rw [s1]
+    by_cases h1 : ib = n
+    · simp only [if_pos h1]
+      subst h1
+      simp only [extPrim]
+      ring
+    · simp only [if_neg h1]
+      rw [localIntegral_eq, sub_self, localPrim_zero]
+      ring
+
+/-- `computeIntegral(xa, xb)` is the difference of the primitive, whatever the order of the
+bounds -/
+theorem integral_eq_prim {x : Vec K} {n : Nat} (hx : Mono x n) (y d : Vec K) (xa xb : K) :
+    integral x y d n xa xb = prim x y d n xb - prim x y d n xa := by
+  unfold integral
+  by_cases hn : n = 1
+  · rw [if_pos hn]
+    unfold prim
+    rw [if_pos hn, if_pos hn]
+    ring
+  · rw [if_neg hn]
+    by_cases h : xb < xa
+    · rw [if_pos h, integralOrdered_eq hx hn y d (le_of_lt h)]
+      ring
+    · rw [if_neg h, integralOrdered_eq hx hn y d (not_lt.mp h)]
+
+/-! ### the spline and its primitive cell by cell -/
+
+theorem piece_join_val {x : Vec K} {n : Nat} (hx : StrictInc x n) (y d : Vec K) {i : Nat}
+    (hi : i + 1 < n) : pieceVal x y d i (x.get (i + 1) - x.get i) = y.get (i + 1) :=
+  pieceVal_right x y d i (sub_ne_zero.mpr (ne_of_gt (hx i hi)))
+
+theorem piece_join_der {x : Vec K} {n : Nat} (hx : StrictInc x n) (y d : Vec K) {i : Nat}
+    (hi : i + 1 < n) : pieceDer x y d i (x.get (i + 1) - x.get i) = d.get (i + 1) :=
+  pieceDer_right x y d i (sub_ne_zero.mpr (ne_of_gt (hx i hi)))
+
+/-- left of the table (first node included) -/
+theorem splineEval_left {x : Vec K} {n : Nat} (hx : StrictInc x n) (hn : 2 ≤ n) (e : Bool)
+    (y d : Vec K) {t : K} (ht : t ≤ x.get 0) :
+    splineEval e x y d n t =
+      if e then (y.get 0 + (t - x.get 0) * d.get 0, d.get 0) else (y.get 0, 0) := by
+  rw [splineEval_of_lb e x y d (by omega) t (lowerBound_left hx ht)]
+  simp
+
+/-- right of the table -/
+theorem splineEval_right {x : Vec K} {n : Nat} (hx : StrictInc x n) (hn : 2 ≤ n) (e : Bool)
+    (y d : Vec K) {t : K} (ht : x.get (n - 1) < t) :
+    splineEval e x y d n t =
+      if e then (y.get (n - 1) + (t - x.get (n - 1)) * d.get (n - 1), d.get (n - 1))
+      else (y.get (n - 1), 0) := by
+  rw [splineEval_of_lb e x y d (by omega) t (lowerBound_right hx (by omega) ht)]
+  have : n ≠ 0 := by omega
+  simp [this]
+
+/-- inside the table the cubic piece of the interval `(x i, x (i+1)]` is used -/
+theorem splineEval_piece {x : Vec K} {n : Nat} (hx : StrictInc x n) (e : Bool) (y d : Vec K)
+    {i : Nat} (hi : i + 1 < n) {t : K} (h0 : x.get i < t) (h1 : t ≤ x.get (i + 1)) :
+    splineEval e x y d n t = (pieceVal x y d i (t - x.get i), pieceDer x y d i (t - x.get i)) := by
+  rw [splineEval_of_lb e x y d (by omega) t (lowerBound_piece hx hi h0 h1)]
+  have h2 : i + 1 ≠ n := by omega
+  simp [h2]
+
+theorem splineEval3_piece {x : Vec K} {n : Nat} (hx : StrictInc x n) (y d : Vec K)
+    {i : Nat} (hi : i + 1 < n) {t : K} (h0 : x.get i < t) (h1 : t ≤ x.get (i + 1)) :
+    splineEval3 x y d n t =
+      (pieceVal x y d i (t - x.get i), pieceDer x y d i (t - x.get i), pieceD2 x y d i (t - x.get i)) := by
+  rw [splineEval3_of_lb x y d (by omega) t (lowerBound_piece hx hi h0 h1)]
+  have h2 : i + 1 ≠ n := by omega
+  simp [h2]
+
+/-- value at a node, any slopes, extrapolating or not -/
+theorem splineEval_node {x : Vec K} {n : Nat} (hx : StrictInc x n) (e : Bool) (y d : Vec K)
+    {i : Nat} (hi : i < n) : (splineEval e x y d n (x.get i)).1 = y.get i := by
+  by_cases hn : n = 1
+  · subst hn
+    have : i = 0 := by omega
+    subst this
+    rw [splineEval_one]
+  · rcases Nat.eq_zero_or_pos i with h | h
+    · subst h
+      rw [splineEval_left hx (by omega) e y d (le_refl _)]
+      cases e <;> simp
+    · obtain ⟨j, rfl⟩ : ∃ j, i = j + 1 := ⟨i - 1, by omega⟩
+      rw [splineEval_piece hx e y d hi (hx j hi) (le_refl _)]
+      exact piece_join_val hx y d hi
+
+/-- on the closed interval `[x i, x (i+1)]` the value is that of the cubic piece `i` -/
+theorem splineEval_on_interval {x : Vec K} {n : Nat} (hx : StrictInc x n) (e : Bool) (y d : Vec K)
+    {i : Nat} (hi : i + 1 < n) {t : K} (h0 : x.get i ≤ t) (h1 : t ≤ x.get (i + 1)) :
+    (splineEval e x y d n t).1 = pieceVal x y d i (t - x.get i) := by
+  rcases lt_or_eq_of_le h0 with h | h
+  · rw [splineEval_piece hx e y d hi h h1]
+  · subst h
+    rw [splineEval_node hx e y d (by omega), sub_self, pieceVal_left]
+
+/-- with extrapolation, the derivative on the closed interval `[x i, x (i+1)]` is that of the
+cubic piece `i` (so the two pieces meeting at a node have the same derivative there) -/
+theorem splineEval_der_on_interval {x : Vec K} {n : Nat} (hx : StrictInc x n) (y d : Vec K)
+    {i : Nat} (hi : i + 1 < n) {t : K} (h0 : x.get i ≤ t) (h1 : t ≤ x.get (i + 1)) :
+    (splineEval true x y d n t).2 = pieceDer x y d i (t - x.get i) := by
+  rcases lt_or_eq_of_le h0 with h | h
+  · rw [splineEval_piece hx true y d hi h h1]
+  · subst h
+    rw [sub_self, pieceDer_left]
+    rcases Nat.eq_zero_or_pos i with h | h
+    · subst h
+      rw [splineEval_left hx (by omega) true y d (le_refl _)]
+      simp
+    · obtain ⟨j, rfl⟩ : ∃ j, i = j + 1 := ⟨i - 1, by omega⟩
+      rw [splineEval_piece hx true y d (by omega) (hx j (by omega)) (le_refl _)]
+      exact piece_join_der hx y d (by omega)
+
+theorem prim_left {x : Vec K} {n : Nat} (hx : StrictInc x n) (hn : 2 ≤ n) (y d : Vec K) {t : K}
+    (ht : t ≤ x.get 0) : prim x y d n t = extPrim (y.get 0) (d.get 0) (t - x.get 0) := by
+  rw [prim_of_lb x y d (by omega) t (lowerBound_left hx ht)]
+  simp
+
+theorem prim_node {x : Vec K} {n : Nat} (hx : StrictInc x n) (hn : 2 ≤ n) (y d : Vec K) {i : Nat}
+    (hi : i < n) : prim x y d n (x.get i) = nodeSum x y d i := by
+  rw [prim_of_lb x y d (by omega) _ (lowerBound_node hx hi)]
+  rcases Nat.eq_zero_or_pos i with h | h
+  · subst h
+    simp [extPrim_zero, nodeSum]
+  · obtain ⟨j, rfl⟩ : ∃ j, i = j + 1 := ⟨i - 1, by omega⟩
+    have h1 : j + 1 ≠ 0 := by omega
+    have h2 : j + 1 ≠ n := by omega
+    simp only [if_neg h1, if_neg h2, Nat.add_sub_cancel, nodeSum]
+
+theorem prim_piece {x : Vec K} {n : Nat} (hx : StrictInc x n) (y d : Vec K) {i : Nat}
+    (hi : i + 1 < n) {t : K} (h0 : x.get i ≤ t) (h1 : t ≤ x.get (i + 1)) :
+    prim x y d n t = nodeSum x y d i + localPrim x y d i (t - x.get i) := by
+  rcases lt_or_eq_of_le h0 with h | h
+  · rw [prim_of_lb x y d (by omega) t (lowerBound_piece hx hi h h1)]
+    have h1 : i + 1 ≠ 0 := by omega
+    have h2 : i + 1 ≠ n := by omega
+    simp only [if_neg h1, if_neg h2, Nat.add_sub_cancel]
+  · subst h
+    rw [prim_node hx (by omega) y d (by omega), sub_self, localPrim_zero, add_zero]
+
+theorem prim_right {x : Vec K} {n : Nat} (hx : StrictInc x n) (hn : 2 ≤ n) (y d : Vec K) {t : K}
+    (ht : x.get (n - 1) ≤ t) :
+    prim x y d n t =
+      nodeSum x y d (n - 1) + extPrim (y.get (n - 1)) (d.get (n - 1)) (t - x.get (n - 1)) := by
+  rcases lt_or_eq_of_le ht with h | h
+  · rw [prim_of_lb x y d (by omega) t (lowerBound_right hx (by omega) h)]
+    have : n ≠ 0 := by omega
+    simp [this]
+  · subst h
+    rw [prim_node hx hn y d (by omega), sub_self, extPrim_zero, add_zero]
 
 end TfelVerif.C11
